@@ -35,9 +35,11 @@ def _conv_lambdas(db):
     for k in db.keys():
         f = db.rep(k)
         if f.get('lambda') and '/future_conv.h' in k and 'future_conv::future_conv' in f['nname']:
+            if f.get('encl_key'):
+                continue       # a closure inside the resume function (handed to a helper): part of its body, not a resume function
             out.add(k)
     for g in resume_bodies(db, 'cocls::future_conv::future_conv'):
-        if '/future_conv.h' in g['key']:
+        if '/future_conv.h' in g['key'] and not g.get('encl_key'):
             out.add(g['key'])
     return sorted(out)
 
@@ -57,12 +59,14 @@ def conv_siblings(ctx, db):
     keys = _conv_lambdas(db)
     if len(keys) < 6:
         raise Broken('future_conv resume functions instantiated: %d of 6 (drivers must instantiate all shapes)' % len(keys))
-    T = Tracer(db, depth=0, exc_edges=may_throw)
+    # the try/catch may have been factored into a helper that is handed the promise and a closure computing the value
+    # (_details::resolve_by_result(p, [&] { return fn(...); })): helpers and the closures handed to them are expanded, exception edges included
+    T = htracer(db, exc=may_throw)
     for k in keys:
         seen_bad = None
         for lf in db.instances(k):
             evl = list(lf.events())
-            has_catch = any((b.get('label') or {}).get('kind') == 'catch' and (b['label'].get('type') == '...') for b in lf['blocks'])
+            has_catch = any((b.get('label') or {}).get('kind') == 'catch' and (b['label'].get('type') == '...') for g in [lf] + helper_bodies(db, lf) for b in g['blocks'])
             pdecl = next((e for e in evl if e.k == 'decl' and 'promise<' in (e.get('type') or '') and ('_prom' in (e.get('init') or '') or 'take_promise' in (e.get('init') or '') or re.search(r'call\(cocls::future_conv_promise_base::\w+\)', e.get('init') or ''))), None)
             bad = None
             if not has_catch:
@@ -82,7 +86,7 @@ def conv_siblings(ctx, db):
                     exc = any(it.k == 'exception' for it in tr)
                     pc = [c for c in calls(tr) if norm(c.get('callee')) in PROM_CALL]
                     mine = [c for c in pc if (c.get('recv') == pv or c.get('orecv') == pv)]
-                    deleg = [c for c in calls(tr) if c.k == 'call' and any(a.get('path') == pv or a.get('opath') == pv for a in c.get('args', [])) and norm(c.get('callee') or '') not in PROM_CALL and norm(c.get('callee') or '') not in ('std::move',)]
+                    deleg = [c for c in calls(tr) if c.k == 'call' and any(a.get('path') == pv or a.get('opath') == pv for a in c.get('args', [])) and norm(c.get('callee') or '') not in PROM_CALL and norm(c.get('callee') or '') not in ('std::move',) and not c.get('expanded')]
                     if exc:
                         nexc += 1
                         # events before the throw that already resolved would make it twice
